@@ -26,7 +26,12 @@
 (*        (NonInterference violated; DESIGN.md section 7 row 11).          *)
 (*   the others are mutations that show the invariants have teeth:         *)
 (*   IdMapped, OverwriteReserved, StripReserved, NsChecked, AuthChecked,   *)
-(*   UsageScoped, CacheScopeHasTenant = FALSE.                             *)
+(*   UsageScoped, CacheScopeHasTenant, RangeChecked, ReservedKeptOnMerge   *)
+(*   = FALSE.                                                              *)
+(* Ids: every id a request carries may have its high word set (field hi:   *)
+(* 0 = ordinary; u in Tenants = the bits that select tenant u's id space;  *)
+(* NT + 1 = a large value that selects nobody's).  Such an id is out of    *)
+(* the tenant-local range: the request / the item is refused, no effect.   *)
 (* (FlushHotTier's documents_flushed is a process-wide aggregate and is    *)
 (* not part of the modelled answer.)                                       *)
 (*                                                                         *)
@@ -44,7 +49,9 @@ CONSTANTS NT,        \* tenants 1..NT; tenant 1 is the observer
           Gen,       \* generator mode: richer request catalogue, history recorded
           Drain,     \* generator: FlushHotTier / BulkLoadHnsw allowed (they take documents out of the recent-write tier)
           SearchPostFilter, CacheScopeHasTenant, StripReserved, OverwriteReserved,
-          UsageScoped, NsChecked, IdMapped, AuthChecked
+          UsageScoped, NsChecked, IdMapped, AuthChecked,
+          RangeChecked,         \* local ids must fit 32 bits on EVERY RPC (FALSE: the high word is OR-ed into the tenant half)
+          ReservedKeptOnMerge   \* UpdateMetadata restores the stored reserved keys in merge mode too
 
 Tenants == 1..NT
 Limit(t) == IF t = 1 THEN LimitA ELSE NI
@@ -111,8 +118,8 @@ Affected(s, e, v) == Len(e.res) < e.k \/ Abs(e.q - v) <= Dist(s, e.res[Len(e.res
 
 (******************************** writes ***********************************)
 \* one document written by tenant t; spoof = the client supplies reserved keys (another tenant's index)
-Put(s, t, i, v, m, n, spoof, isHot) ==
-  LET g == Slot(t) x == <<g, i>> IN
+Put(s, t, g, i, v, m, n, spoof, isHot) ==
+  LET x == <<g, i>> IN
   [s EXCEPT !.kv[g] = Apply(@, [t |-> "insert", id |-> i, v |-> v, m |-> m]),
             !.ns[g][i] = n,
             !.own[g][i] = IF spoof /\ ~OverwriteReserved THEN Other(t) ELSE t,
@@ -120,33 +127,49 @@ Put(s, t, i, v, m, n, spoof, isHot) ==
             !.qc = IF isHot THEN QcDrop(s, LAMBDA e : Has(e.res, x) \/ Affected(s, e, v)) ELSE <<>>,
             !.cnt[t] = IF s.kv[g][i].p THEN @ ELSE @ + 1]
 
-Admitted(s, t, i) == s.kv[Slot(t)][i].p \/ s.cnt[t] < Limit(t)
+\* where a write of tenant t with high word hi lands when the range check is missing (0 = in nobody's id space)
+Land(t, hi) == IF hi = 0 THEN Slot(t) ELSE IF hi \in Tenants THEN hi ELSE 0
+Admitted(s, t, g, i) == s.kv[g][i].p \/ s.cnt[t] < Limit(t)
+Refused == Ans("INVALID_ARGUMENT", 0, <<>>, 0)
 
 Insert(s, t, r) ==
-  IF Admitted(s, t, r.id) THEN [s |-> Put(s, t, r.id, r.v, r.m, r.ns, r.spoof, TRUE), r |-> Ans("OK", 1, <<>>, 0)]
+  LET g == Land(t, r.hi) IN
+  IF r.hi # 0 /\ RangeChecked THEN [s |-> s, r |-> Refused]
+  ELSE IF g = 0 THEN [s |-> s, r |-> Ans("OK", 1, <<>>, 0)]
+  ELSE IF Admitted(s, t, g, r.id) THEN [s |-> Put(s, t, g, r.id, r.v, r.m, r.ns, r.spoof, TRUE), r |-> Ans("OK", 1, <<>>, 0)]
   ELSE [s |-> s, r |-> Ans("RESOURCE_EXHAUSTED", 0, <<>>, 0)]
 
 RECURSIVE BulkInsertFrom(_, _, _, _, _)
 BulkInsertFrom(s, t, r, j, ok) ==
   IF j > Len(r.items) THEN [s |-> s, r |-> Ans("OK", ok, <<>>, Len(r.items) - ok)]
-  ELSE LET it == r.items[j] IN
-       IF Admitted(s, t, it.id) THEN BulkInsertFrom(Put(s, t, it.id, it.v, it.m, r.ns, r.spoof, TRUE), t, r, j + 1, ok + 1)
+  ELSE LET it == r.items[j] g == Land(t, it.hi) IN
+       IF it.hi # 0 /\ RangeChecked THEN BulkInsertFrom(s, t, r, j + 1, ok)          \* a failed item
+       ELSE IF g = 0 THEN BulkInsertFrom(s, t, r, j + 1, ok + 1)
+       ELSE IF Admitted(s, t, g, it.id) THEN BulkInsertFrom(Put(s, t, g, it.id, it.v, it.m, r.ns, r.spoof, TRUE), t, r, j + 1, ok + 1)
        ELSE BulkInsertFrom(s, t, r, j + 1, ok)
 
 RECURSIVE LoadFrom(_, _, _, _)
 LoadFrom(s, t, r, j) ==
   IF j > Len(r.items) THEN s
-  ELSE LoadFrom(Put(s, t, r.items[j].id, r.items[j].v, r.items[j].m, r.ns, r.spoof, FALSE), t, r, j + 1)
+  ELSE LET it == r.items[j] g == Land(t, it.hi) IN
+       IF (it.hi # 0 /\ RangeChecked) \/ g = 0 THEN LoadFrom(s, t, r, j + 1)
+       ELSE LoadFrom(Put(s, t, g, it.id, it.v, it.m, r.ns, r.spoof, FALSE), t, r, j + 1)
 BulkLoad(s, t, r) ==
-  LET new == { r.items[j].id : j \in DOMAIN r.items } \ { i \in Ids : s.kv[Slot(t)][i].p } IN
-  IF s.cnt[t] + Card(new) > Limit(t) THEN [s |-> s, r |-> Ans("RESOURCE_EXHAUSTED", 0, <<>>, 0)]
-  ELSE [s |-> LoadFrom(s, t, r, 1), r |-> Ans("OK", Len(r.items), <<>>, 0)]
+  LET taken == { j \in DOMAIN r.items : r.items[j].hi = 0 \/ ~RangeChecked }      \* the others are failed items
+      new == { <<Land(t, r.items[j].hi), r.items[j].id>> : j \in taken } \ ({ x \in AllLive(s) : TRUE } \cup ({0} \X Ids))
+  IN IF s.cnt[t] + Card(new) > Limit(t) THEN [s |-> s, r |-> Ans("RESOURCE_EXHAUSTED", 0, <<>>, 0)]
+     ELSE [s |-> LoadFrom(s, t, r, 1), r |-> Ans("OK", Card(taken), <<>>, Len(r.items) - Card(taken))]
+
+\* an id-addressed read / update / delete whose id has the high word set: refused (without the range check it addresses a
+\* foreign id space, where the stored tenant index hides everything: "not found")
+HiAns == IF RangeChecked THEN Refused ELSE Ok0
 
 UpdateMeta(s, t, r) ==
   LET g == Slot(t) IN
-  IF ~Visible(s, t, r.id, r.ns) THEN [s |-> s, r |-> Ok0]
+  IF r.hi # 0 THEN [s |-> s, r |-> HiAns]
+  ELSE IF ~Visible(s, t, r.id, r.ns) THEN [s |-> s, r |-> Ok0]
   ELSE [s |-> [s EXCEPT !.kv[g] = Apply(@, [t |-> "umeta", id |-> r.id, m |-> r.m, merge |-> r.merge]),
-                        !.own[g][r.id] = IF r.spoof /\ ~OverwriteReserved THEN Other(t) ELSE @,
+                        !.own[g][r.id] = IF r.spoof /\ (~OverwriteReserved \/ (r.merge /\ ~ReservedKeptOnMerge)) THEN Other(t) ELSE @,
                         !.qc = <<>>],
         r |-> Ans("OK", 1, <<>>, 0)]
 
@@ -168,8 +191,10 @@ DeleteFilter(s, t, r) ==
 
 (********************************* reads ***********************************)
 Query(s, t, r) ==
-  IF Visible(s, t, r.id, r.ns) THEN [s |-> s, r |-> Ans("OK", 1, <<Out(s, Slot(t), r.id)>>, 0)] ELSE [s |-> s, r |-> Ok0]
+  IF r.hi # 0 THEN [s |-> s, r |-> HiAns]
+  ELSE IF Visible(s, t, r.id, r.ns) THEN [s |-> s, r |-> Ans("OK", 1, <<Out(s, Slot(t), r.id)>>, 0)] ELSE [s |-> s, r |-> Ok0]
 BulkQuery(s, t, r) ==
+  IF r.hi # 0 THEN [s |-> s, r |-> HiAns] ELSE
   LET vis == SelectSeq(r.ids, LAMBDA i : Visible(s, t, i, r.ns))
   IN [s |-> s, r |-> Ans("OK", Len(vis), [j \in DOMAIN vis |-> Out(s, Slot(t), vis[j])], 0)]
 
@@ -199,8 +224,8 @@ Exec(s, r) ==
     [] r.rpc = "binsert" -> BulkInsertFrom(s, t, r, 1, 0)
     [] r.rpc = "bload"   -> BulkLoad(s, t, r)
     [] r.rpc = "umeta"   -> UpdateMeta(s, t, r)
-    [] r.rpc = "delete"  -> DeleteIds(s, t, {r.id}, r.ns)
-    [] r.rpc = "bdelete" -> DeleteIds(s, t, Range(r.ids), r.ns)
+    [] r.rpc = "delete"  -> IF r.hi # 0 THEN [s |-> s, r |-> HiAns] ELSE DeleteIds(s, t, {r.id}, r.ns)
+    [] r.rpc = "bdelete" -> IF r.hi # 0 THEN [s |-> s, r |-> HiAns] ELSE DeleteIds(s, t, Range(r.ids), r.ns)
     [] r.rpc = "fdelete" -> DeleteFilter(s, t, r)
     [] r.rpc = "query"   -> Query(s, t, r)
     [] r.rpc = "bquery"  -> BulkQuery(s, t, r)
@@ -214,34 +239,53 @@ Do(s, r) == IF r.key # "valid" /\ AuthChecked THEN [s |-> s, r |-> Ans("UNAUTHEN
 M1 == [k1 |-> 1, k2 |-> 0]
 InsMetas == {NoMeta, M1} \cup (IF Gen THEN {[k1 |-> NVal, k2 |-> 1]} ELSE {})
 UpdMetas == {NoMeta, M1} \cup (IF Gen THEN {[k1 |-> 0, k2 |-> NVal]} ELSE {})
-Item(i, v, m) == [id |-> i, v |-> v, m |-> m]
+Item(i, v, m) == [id |-> i, v |-> v, m |-> m, hi |-> 0]
+HiItem(i, v, m, h) == [id |-> i, v |-> v, m |-> m, hi |-> h]
+His == 1..(NT + 1)
 Batches == { <<Item(1, 1, NoMeta), Item(1, NV, M1)>>, <<Item(NI, 1, M1), Item(1, 1, NoMeta)>> }
            \cup (IF Gen THEN { <<Item(1, 1, M1), Item(2, NV, NoMeta), Item(NI, 1, M1)>>, <<Item(NI, NV, NoMeta)>> } ELSE {})
+\* batches with one item whose id has the high word set (for bulk id lists: r.hi applies to the first id of the list)
+HiBatches == { <<HiItem(1, NV, M1, h)>> : h \in His }
+             \cup (IF Gen THEN { <<Item(NI, 1, NoMeta), HiItem(i, NV, M1, h)>> : i \in Ids, h \in His }
+                                \cup { <<HiItem(i, 1, M1, h), Item(1, NV, NoMeta)>> : i \in Ids, h \in His } ELSE {})
 IdLists == { <<1>>, <<NI, 1>>, <<NI, NI>> }
 AllIds == [j \in 1..NI |-> j]
 
 Req0 == [t |-> 1, key |-> "valid", rpc |-> "noop", id |-> 0, ids |-> <<>>, v |-> 0, m |-> NoMeta, merge |-> FALSE, ns |-> 0,
-         f |-> NoF, q |-> 0, k |-> 0, spoof |-> FALSE, items |-> <<>>, scope |-> "self"]
+         f |-> NoF, q |-> 0, k |-> 0, spoof |-> FALSE, items |-> <<>>, scope |-> "self", hi |-> 0]
 Rq(rpc, fields) == fields @@ [Req0 EXCEPT !.rpc = rpc]
+
+\* every RPC that takes ids, with the high word of an id set
+HiReqs ==
+       { Rq("insert", [id |-> i, v |-> NV, m |-> M1, hi |-> h]) : i \in (IF Gen THEN Ids ELSE {1}), h \in His }
+  \cup { Rq("binsert", [items |-> b]) : b \in HiBatches }
+  \cup { Rq("bload", [items |-> b]) : b \in HiBatches }
+  \cup { Rq(c, [id |-> i, m |-> M1, merge |-> TRUE, hi |-> h]) : c \in {"umeta", "delete", "query"}, i \in (IF Gen THEN Ids ELSE {1}), h \in His }
+  \cup { Rq(c, [ids |-> l, hi |-> h]) : c \in {"bdelete", "bquery"}, l \in (IF Gen THEN {<<1>>, AllIds} ELSE {<<1>>}), h \in His }
+HasHi(r) == r.hi # 0 \/ \E j \in DOMAIN r.items : r.items[j].hi # 0
 
 Plain ==
        { Rq("insert", [id |-> i, v |-> v, m |-> m, ns |-> n]) : i \in Ids, v \in Vecs, m \in InsMetas, n \in 0..NNs }
-  \cup { Rq("insert", [id |-> i, v |-> 1, m |-> M1, spoof |-> TRUE]) : i \in Ids }
+  \cup { Rq("insert", [id |-> i, v |-> 1, m |-> M1, spoof |-> TRUE, ns |-> n]) : i \in Ids, n \in (IF Gen THEN 0..NNs ELSE {0}) }
   \cup { Rq("binsert", [items |-> b, ns |-> n]) : b \in Batches, n \in (IF Gen THEN 0..NNs ELSE {0}) }
   \cup (IF Gen THEN { Rq("binsert", [items |-> b, spoof |-> TRUE]) : b \in Batches } ELSE {})
-  \cup { Rq("bload", [items |-> b, spoof |-> sp]) : b \in Batches, sp \in (IF Gen THEN BOOLEAN ELSE {FALSE}) }
+  \cup { Rq("bload", [items |-> b, spoof |-> sp, ns |-> n]) : b \in Batches, sp \in (IF Gen THEN BOOLEAN ELSE {FALSE}),
+                                                              n \in (IF Gen THEN 0..NNs ELSE {0}) }
   \cup { Rq("umeta", [id |-> i, m |-> m, merge |-> mg, ns |-> n]) : i \in Ids, m \in UpdMetas, mg \in BOOLEAN, n \in 0..NNs }
-  \cup { Rq("umeta", [id |-> i, m |-> M1, spoof |-> TRUE]) : i \in Ids }
+  \cup { Rq("umeta", [id |-> i, m |-> m, spoof |-> TRUE, merge |-> mg, ns |-> n]) :
+           i \in Ids, mg \in BOOLEAN, m \in (IF Gen THEN {NoMeta, M1} ELSE {M1}), n \in (IF Gen THEN 0..NNs ELSE {0}) }
   \cup { Rq("delete", [id |-> i, ns |-> n]) : i \in Ids, n \in 0..NNs }
   \cup { Rq("bdelete", [ids |-> l, ns |-> n]) : l \in IdLists, n \in 0..NNs }
   \cup { Rq("fdelete", [f |-> f, ns |-> n]) : f \in Filters, n \in (IF Gen THEN 0..NNs ELSE {0}) }
   \cup { Rq("query", [id |-> i, ns |-> n]) : i \in Ids, n \in 0..NNs }
-  \cup { Rq("bquery", [ids |-> AllIds, ns |-> n]) : n \in 0..NNs }
+  \cup { Rq("bquery", [ids |-> l, ns |-> n]) : l \in {AllIds} \cup (IF Gen THEN IdLists ELSE {}), n \in 0..NNs }
   \cup { Rq("search", [q |-> q, k |-> k, ns |-> n]) : q \in Vecs, k \in 1..MaxK, n \in 0..NNs }
   \cup { Rq("search", [q |-> q, k |-> MaxK, f |-> f]) : q \in Vecs, f \in Filters }
   \cup (IF Gen THEN { Rq("search", [q |-> q, k |-> NI, f |-> f, ns |-> 1]) : q \in Vecs, f \in Filters } ELSE {})
   \cup { Rq("flush", <<>>) }
   \cup { Rq("usage", [scope |-> sc]) : sc \in {"self", "all"} }
+  \cup HiReqs
+
 
 \* requests without a valid enabled key, addressed at tenant t's data
 NoKey == { [r EXCEPT !.key = k] : k \in {"none", "wrong", "disabled"},
@@ -280,12 +324,18 @@ Step(r) ==
 \* identical queries of different tenants are what could make a cache entry cross the tenant boundary)
 \* "leak": a search of the observer for which this model (run with the code's deviations switched on) predicts different
 \* answers in the two copies - the generator steers towards the cases the model says are observable
+\* "spoof": a write / metadata update (of a document the caller can see) that carries reserved keys;
+\* "hi": a request with an id whose high word is set
 Weights == [insert |-> 5, binsert |-> 1, bload |-> 1, umeta |-> 2, delete |-> 1, bdelete |-> 1, fdelete |-> 2, query |-> 1,
-            bquery |-> 1, search |-> 4, research |-> 2, leak |-> 3, flush |-> 1, usage |-> 1, nokey |-> 1]
+            bquery |-> 1, search |-> 4, research |-> 2, leak |-> 3, flush |-> 1, usage |-> 1, nokey |-> 1, spoof |-> 3, hi |-> 3]
 Classes == { x \in (DOMAIN Weights) \X (1..5) : x[2] <= Weights[x[1]] /\ (x[1] \in {"flush", "bload"} => Drain) }
 LeakReq(r) == r.t = 1 /\ r.key = "valid" /\ r.rpc = "search" /\ Do(full, r).r # Do(solo, r).r
+SpoofReq(r) == r.spoof /\ r.key = "valid" /\ (r.rpc = "bload" => Drain) /\ (r.rpc = "umeta" => Visible(full, r.t, r.id, r.ns))
+HiReq(r) == HasHi(r) /\ r.key = "valid" /\ (r.rpc = "bload" => Drain)
 InClass(r, c) ==
   IF c = "leak" THEN LeakReq(r)
+  ELSE IF c = "spoof" THEN SpoofReq(r)
+  ELSE IF c = "hi" THEN HiReq(r)
   ELSE IF r.key # "valid" THEN c = "nokey"
   ELSE IF c = "research" THEN r.rpc = "search" /\ \E j \in DOMAIN full.qc : full.qc[j].q = r.q
   ELSE r.rpc = c
